@@ -162,7 +162,7 @@ class LthOrder(Unit):
     qualname = "boo_2d.lthorder"
     prop = "C10"
     summaries = dict(PBC)
-    timeout = 30
+    timeout = 6
     solver_opts = {"rounds": 4}
 
     def cases(self):
@@ -224,6 +224,332 @@ class LthOrder(Unit):
 
 
 # ---------------------------------------------------------------------------------------------------------------
+# time_average / time_corr / spatial_corr: the documented functions of the complex numbers psi (docs/boo_2d.md eq. (3)-(6))
+
+TAVG = "PyMatterSim.utils.coarse_graining.time_average"
+TCORR = "PyMatterSim.dynamic.time_corr.time_correlation"
+CGR = "PyMatterSim.static.gr.conditional_gr"
+
+
+def _setup_methods(ctx):
+    """a boo_2d object after __init__: ParticlePhi is an arbitrary complex (T,N) array PHI"""
+    tr = Traj(ctx, 2)
+    T, N = tr.T, tr.N
+    l = ctx.int("l")
+    ctx.assume(sv.and_(l >= 1, l <= 12))
+    p = [ctx.int(f"ppp_{k}") for k in range(2)]
+    for k in range(2):
+        ctx.assume(sv.or_(sv.cmp("==", p[k], 0), sv.cmp("==", p[k], 1)))
+    ppp = A.from_nested(p, "int")
+    phi = ctx.array("PHI", (T, N), "complex", origin="self.ParticlePhi")
+    snaps = tr.snapshots()
+    o = ctx.obj(MOD, "boo_2d", dict(snapshots=snaps, l=l, neighborfile=NBFILE, weightsfile="", ppp=ppp, Nmax=10, nparticle=N, ParticlePhi=phi))
+    return o, dict(tr=tr, T=T, N=N, l=l, p=p, ppp=ppp, phi=phi, snaps=snaps)
+
+
+def _same_array(a, b, what):
+    """call-site obligation: array argument `a` has the shape and, at an arbitrary index, the elements of `b`"""
+    st = cur()
+    if not isinstance(a, A.Arr) or a.ndim != b.ndim:
+        st.require(False, what + ":rank")
+        return
+    idx = []
+    conds = []
+    for k in range(b.ndim):
+        A.require_dim_eq(a.shape[k], b.shape[k], what + ":shape")
+        t = sv.fresh_int("ai")
+        idx.append(t)
+        conds.append(sv.and_(sv.cmp(">=", t, 0), sv.cmp("<", t, b.shape[k])))
+    x, y = sv.as_cx(a.get(tuple(idx))), sv.as_cx(b.get(tuple(idx)))
+    st.require(sv.implies(sv.and_(*conds), sv.and_(sv.cmp("==", x.re, y.re), sv.cmp("==", x.im, y.im))), what + ":elements")
+
+
+def window_mean(reader, w, k, i):
+    """(1/w) sum_{t<w} x[k+t, i]   (complex)"""
+    re = Sum(0, w, lambda t: sv.as_cx(reader((A.simp(sv.add(k, t)), i))).re)
+    im = Sum(0, w, lambda t: sv.as_cx(reader((A.simp(sv.add(k, t)), i))).im)
+    return sv.Cx(sv.div(re, w), sv.div(im, w))
+
+
+class TimeAverage(Unit):
+    """boo_2d.time_average: the window average of the complex values (average_complex) or of modulus and phase separately,
+    recombined as <|psi|> exp(i <arg psi>); window and middle-frame index are those of utils.coarse_graining.time_average (C16)"""
+    module = MOD
+    qualname = "boo_2d.time_average"
+    prop = "C10"
+    timeout = 6
+
+    def cases(self):
+        return [f"{m}/{o}" for m in ("complex", "modulus-phase") for o in ("nofile", "file")]
+
+    def setup(self, ctx, case):
+        o, inp = _setup_methods(ctx)
+        tp, dt = ctx.real("time_period"), ctx.real("dt")
+        ctx.assume(tp > 0)
+        ctx.assume(inp["T"] >= 2)     # the callee derives the frame interval from the first two frames
+        w = ctx.int("w")          # window length in frames chosen by the callee (int(time_period / (frame interval * dt)))
+        ctx.assume(sv.and_(w >= 1, w <= inp["T"]))
+        MID = z3.Function("MID", z3.IntSort(), z3.IntSort())
+        calls = []
+        T, N = inp["T"], inp["N"]
+        K = A.simp(sv.sub(T, w))
+
+        def tavg(interp, args, kwargs):
+            """callee contract of utils.coarse_graining.time_average(snapshots, input_property, time_period, dt):
+            requires the trajectory object and an array of shape (T, N); ensures results[k, i] = mean of input_property[k : k + w, i]
+            (complex (T - w, N) array), ids[k] = index of the window's middle frame"""
+            names = ["snapshots", "input_property", "time_period", "dt"]
+            a = dict(zip(names, args))
+            a.update(kwargs)
+            st = cur()
+            st.require(a.get("snapshots") is not None and getattr(a["snapshots"], "sid", None) == inp["snaps"].sid, "call:time_average:pre:snapshots-is-the-trajectory")
+            st.require(sv.cmp(">=", T, 2), "call:time_average:pre:at-least-two-frames")
+            st.require(sv.cmp("==", a.get("time_period", 0), tp), "call:time_average:pre:time_period")
+            st.require(sv.cmp("==", a.get("dt", sv.to_frac(0.002)), dt), "call:time_average:pre:dt")
+            arr = a["input_property"]
+            if not isinstance(arr, A.Arr) or arr.ndim != 2:
+                raise sv.EngineError("time_average summary: input_property must be a (T,N) array")
+            A.require_dim_eq(arr.shape[0], T, "call:time_average:pre:shape")
+            A.require_dim_eq(arr.shape[1], N, "call:time_average:pre:shape")
+            r = arr.reader()
+            calls.append(arr)
+            res = A.new_arr((K, N), lambda idx: window_mean(r, w, idx[0], idx[1]), "complex")
+            ids = A.new_arr((K,), lambda idx: sv.SV(MID(sv.znum(idx[0]))), "int")
+            return (res, ids)
+        ctx.interp.summaries[TAVG] = tavg
+        of = "avg.npy" if case.endswith("/file") else ""
+        inp.update(tp=tp, dt=dt, w=w, MID=MID, K=K, of=of, k=ctx.int("k"), i=ctx.int("i"), calls=calls)
+        return [o, tp, dt, case.startswith("complex"), of], {}, inp
+
+    def clause_names(self, case):
+        return ["returns-(values,ids)", "value=documented-average", "ids=middle-frame-of-window", "file=returned"]
+
+    def ensures(self, ctx, case, inp, out):
+        res = out.value
+        ok = isinstance(res, tuple) and len(res) == 2 and all(isinstance(x, A.Arr) for x in res) and res[0].ndim == 2 and res[1].ndim == 1 \
+            and A.dim_eq_syntactic(res[0].shape[0], inp["K"]) and A.dim_eq_syntactic(res[0].shape[1], inp["N"]) and A.dim_eq_syntactic(res[1].shape[0], inp["K"])
+        yield "returns-(values,ids)", bool(ok)
+        if not ok:
+            return
+        k, i, w, phi = inp["k"], inp["i"], inp["w"], inp["phi"]
+        inr = sv.and_(sv.cmp(">=", k, 0), sv.cmp("<", k, inp["K"]), sv.cmp(">=", i, 0), sv.cmp("<", i, inp["N"]))
+        got = sv.as_cx(res[0].get((k, i)))
+        pr = phi.reader()
+        if case.startswith("complex"):
+            want = window_mean(pr, w, k, i)                                            # eq. (4): average of the complex number
+        else:
+            mod = window_mean(lambda ix: sv.absv(sv.as_cx(pr(ix))), w, k, i).re              # eq. (3): average of the modulus ...
+            pha = window_mean(lambda ix: sv.atan2(sv.as_cx(pr(ix)).im, sv.as_cx(pr(ix)).re), w, k, i).re   # ... and of the phase
+            want = sv.Cx(sv.mul(mod, sv.cos(pha)), sv.mul(mod, sv.sin(pha)))
+        yield "value=documented-average", sv.implies(inr, sv.and_(sv.cmp("==", got.re, want.re), sv.cmp("==", got.im, want.im)))
+        yield "ids=middle-frame-of-window", sv.implies(inr, sv.cmp("==", res[1].get((k,)), sv.SV(inp["MID"](sv.znum(k)))))
+        saves = [e for e in out.state.trace if e[0] == "np.save"]
+        txts = [e for e in out.state.trace if e[0] == "np.savetxt"]
+        if not inp["of"]:
+            yield "file=returned", len(saves) == 0 and len(txts) == 0
+        elif len(saves) == 1 and len(txts) == 1 and saves[0][1] == inp["of"] and txts[0][1] == inp["of"] + ".snapshot_id.dat" \
+                and saves[0][2].ndim == 2 and txts[0][2].ndim == 2:
+            sa = sv.as_cx(saves[0][2].get((k, i)))
+            yield "file=returned", sv.implies(inr, sv.and_(sv.cmp("==", sa.re, got.re), sv.cmp("==", sa.im, got.im),
+                                                           sv.cmp("==", txts[0][2].get((k, 0)), res[1].get((k,)))))
+        else:
+            yield "file=returned", False
+
+    def raises(self, ctx, case, inp, out):
+        return None
+
+    def replay(self, case, clause, model, seed):
+        return _replay_boo("time_average", case, clause, model, seed)
+
+
+class TimeCorr(Unit):
+    """boo_2d.time_corr = time_correlation(trajectory, psi, dt, outputfile) (C14: origin-averaged, normalised to 1 at lag 0: eq. (6))"""
+    module = MOD
+    qualname = "boo_2d.time_corr"
+    prop = "C10"
+    timeout = 6
+
+    def cases(self):
+        return ["nofile", "file"]
+
+    def setup(self, ctx, case):
+        o, inp = _setup_methods(ctx)
+        dt = ctx.real("dt")
+        of = "tc.csv" if case == "file" else ""
+        marker = ("RESULT-OF-time_correlation",)
+        ncalls = []
+
+        def tc(interp, args, kwargs):
+            names = ["snapshots", "condition", "dt", "outputfile"]
+            a = dict(zip(names, args))
+            a.update(kwargs)
+            st = cur()
+            st.require(getattr(a.get("snapshots"), "sid", None) == inp["snaps"].sid, "call:time_correlation:pre:snapshots-is-the-trajectory")
+            _same_array(a.get("condition"), inp["phi"], "call:time_correlation:pre:condition=psi")
+            st.require(sv.cmp("==", a.get("dt", sv.to_frac(0.002)), dt), "call:time_correlation:pre:dt")
+            st.require(a.get("outputfile", "") == of, "call:time_correlation:pre:outputfile")
+            ncalls.append(1)
+            return marker
+        ctx.interp.summaries[TCORR] = tc
+        inp.update(marker=marker, ncalls=ncalls)
+        return [o, dt, of], {}, inp
+
+    def clause_names(self, case):
+        return ["returns-time_correlation-of-psi"]
+
+    def ensures(self, ctx, case, inp, out):
+        yield "returns-time_correlation-of-psi", out.value is inp["marker"]
+
+    def replay(self, case, clause, model, seed):
+        return _replay_boo("time_corr", case, clause, model, seed)
+
+
+GCOLS = ["r", "gr", "gA"]
+
+
+def _first_for_lineno(qual):
+    import ast
+    from pyvc.interp import load_module
+    node = load_module(MOD).get_class(qual.split(".")[0]).methods[qual.split(".")[1]]
+    for n in ast.walk(node):
+        if isinstance(n, ast.For):
+            return n.lineno
+    return None
+
+
+class SpatialCorr(Unit):
+    """boo_2d.spatial_corr: the frame average of conditional_gr(frame n, condition = psi[n], ppp, rdelta) (C13 callee contract, eq. (5)):
+    column c, bin b of the returned frame = (1/T) sum_n CGR_n(b, c).  The frame loop accumulates a DataFrame; its summary is a written
+    invariant  glresults(k) = sum_{t<k} CGR_t  checked by the usual init/step obligations (first iteration from the real pre-state)."""
+    module = MOD
+    qualname = "boo_2d.spatial_corr"
+    prop = "C10"
+    timeout = 6
+
+    def cases(self):
+        return ["nofile", "file"]
+
+    def setup(self, ctx, case):
+        from pyvc.interp import Frame
+        from pyvc.loops import _SideGoal
+        from pyvc.pandas_model import df_content, new_df
+        from pyvc.state import use_state
+        o, inp = _setup_methods(ctx)
+        rd = ctx.real("rdelta")
+        ctx.assume(rd > 0)
+        B = ctx.int("maxbin")          # number of bins of conditional_gr: the same for every frame (equal box lengths: object invariant)
+        ctx.assume(B >= 1)
+        I = z3.IntSort()
+        CG = z3.Function("CGR", I, I, I, z3.RealSort())
+        T, N, phi = inp["T"], inp["N"], inp["phi"]
+
+        def frame_table(fn):
+            return new_df({c: A.new_arr((B,), (lambda idx, ci=ci: fn(idx[0], ci)), "float") for ci, c in enumerate(GCOLS)}, GCOLS, B)
+
+        def cgr(interp, args, kwargs):
+            """callee contract of conditional_gr(snapshot, condition, conditiontype, ppp, rdelta) for a complex condition:
+            requires condition of shape (N,); ensures a frame with columns r, gr, gA and maxbin rows: CGR_s(b, c) for frame s"""
+            names = ["snapshot", "condition", "conditiontype", "ppp", "rdelta"]
+            a = dict(zip(names, args))
+            a.update(kwargs)
+            st = cur()
+            snap = a.get("snapshot")
+            ts = snap.content["timestep"] if getattr(snap, "kind", None) == "obj" else None
+            if not isinstance(ts, sv.SV) or ts.t.decl().name() != inp["tr"].TS.name():
+                st.require(False, "call:conditional_gr:pre:snapshot-is-a-frame-of-the-trajectory")
+                raise sv.EngineError("conditional_gr summary: snapshot argument is not a frame of the trajectory")
+            sfr = sv.wrap(ts.t.arg(0))
+            cond = a.get("condition")
+            row = A.new_arr((N,), lambda idx: phi.get((sfr, idx[0])), "complex")
+            _same_array(cond, row, "call:conditional_gr:pre:condition=psi-of-the-same-frame")
+            st.require(isinstance(cond, A.Arr) and cond.dtype == "complex", "call:conditional_gr:pre:complex-condition")
+            st.require(a.get("conditiontype") is None, "call:conditional_gr:pre:conditiontype=None")
+            _same_array(a.get("ppp"), inp["ppp"], "call:conditional_gr:pre:ppp")
+            st.require(sv.cmp("==", a.get("rdelta", sv.to_frac(0.01)), rd), "call:conditional_gr:pre:rdelta")
+            return frame_table(lambda b, ci: sv.SV(CG(sv.znum(sfr), sv.znum(b), z3.IntVal(ci))))
+        ctx.interp.summaries[CGR] = cgr
+
+        def hint(interp, s, frame, st, lo, hi, item_fn):
+            where = f"{frame.fname}:{s.lineno}"
+            var = "glresults"
+
+            def inv(k):
+                return frame_table(lambda b, ci: Sum(lo, k, lambda t: sv.SV(CG(sv.znum(t), sv.znum(b), z3.IntVal(ci)))))
+
+            def run(kv, val, extra):
+                fr = Frame(frame.module, dict(frame.env), frame.fname)
+                fr.env[var] = val
+                st2 = st.fork()
+                st2.pc = list(st.pc) + [sv.zb(sv.cmp(">=", kv, lo)), sv.zb(sv.cmp("<", kv, hi))] + extra
+                with use_state(st2):
+                    interp.assign(s.target, item_fn(kv), fr)
+                    outs = interp.exec_block_paths(s.body, fr, st2)
+                normal = [(f2, s2) for f2, s2, out in outs if out[0] == "normal"]
+                if len(outs) != 1 or len(normal) != 1:
+                    raise sv.EngineError("spatial_corr frame loop: body does not have a single normal path")
+                return normal[0]
+
+            def eq_goals(s2, got, want_df, kind):
+                b = sv.fresh_int("b")
+                with use_state(s2):
+                    if not (getattr(got, "kind", None) == "df" and df_content(got)["order"] == GCOLS and A.dim_eq_syntactic(df_content(got)["n"], B)):
+                        st.side.append(_SideGoal(kind, z3.BoolVal(False), s2.all_assumptions(), where))
+                        return
+                    for c in GCOLS:
+                        g = sv.cmp("==", df_content(got)["cols"][c].get((b,)), df_content(want_df)["cols"][c].get((b,)))
+                        goal = sv.zb(sv.implies(sv.and_(sv.cmp(">=", b, 0), sv.cmp("<", b, B)), g))
+                        st.side.append(_SideGoal(kind, goal, s2.all_assumptions(), where))
+            # init: the first iteration, from the real pre-state, establishes inv(lo + 1)
+            lo1 = A.simp(sv.add(lo, 1))
+            want1 = inv(lo1)
+            f2, s2 = run(lo, frame.env[var], [])
+            eq_goals(s2, f2.env[var], want1, "loop-init")
+            # step: from inv(k), lo + 1 <= k < hi, the body establishes inv(k + 1)
+            k = sv.fresh_int("k")
+            cur_df, nxt_df = inv(k), inv(A.simp(sv.add(k, 1)))
+            f3, s3 = run(k, cur_df, [sv.zb(sv.cmp(">=", k, lo1))])
+            eq_goals(s3, f3.env[var], nxt_df, "loop-step")
+            # post-state
+            frame.env[var] = inv(hi)
+            last = A.simp(sv.sub(hi, 1))
+            interp.assign(s.target, item_fn(last), frame)
+        ln = _first_for_lineno(self.qualname)
+        ctx.interp.loop_hints[(f"{MOD}.{self.qualname}", "for", ln)] = hint
+        of = "gl.csv" if case == "file" else ""
+        inp.update(rd=rd, B=B, CG=CG, of=of, b=ctx.int("b"))
+        return [o, rd, of], {}, inp
+
+    def clause_names(self, case):
+        return ["columns", "value=frame-average-of-conditional_gr", "file=returned"]
+
+    def ensures(self, ctx, case, inp, out):
+        from pyvc.pandas_model import df_content
+        res = out.value
+        ok = getattr(res, "kind", None) == "df" and df_content(res)["order"] == GCOLS and A.dim_eq_syntactic(df_content(res)["n"], inp["B"])
+        yield "columns", bool(ok)
+        if not ok:
+            return
+        b, B, T, CG = inp["b"], inp["B"], inp["T"], inp["CG"]
+        inr = sv.and_(sv.cmp(">=", b, 0), sv.cmp("<", b, B))
+        cols = df_content(res)["cols"]
+        eqs = []
+        for ci, c in enumerate(GCOLS):
+            want = sv.div(Sum(0, T, lambda t: sv.SV(CG(sv.znum(t), sv.znum(b), z3.IntVal(ci)))), T)
+            eqs.append(sv.cmp("==", cols[c].get((b,)), want))
+        yield "value=frame-average-of-conditional_gr", sv.implies(inr, sv.and_(*eqs))
+        writes = [e for e in out.state.trace if e[0] == "to_csv"]
+        if not inp["of"]:
+            yield "file=returned", len(writes) == 0
+        elif len(writes) == 1 and writes[0][1] == inp["of"] and writes[0][3] == GCOLS:
+            yield "file=returned", sv.implies(inr, sv.and_(*[sv.cmp("==", writes[0][2][c].get((b,)), cols[c].get((b,))) for c in GCOLS]))
+        else:
+            yield "file=returned", False
+
+    def replay(self, case, clause, model, seed):
+        return _replay_boo("spatial_corr", case, clause, model, seed)
+
+
+# ---------------------------------------------------------------------------------------------------------------
 # replay (runs under /venv/bin/python against the real package)
 
 
@@ -241,11 +567,11 @@ def _write_nb_files(d, nbs, wts, N):
     return fn, fw
 
 
-def _gen_system(rng, trial, lattice=None):
+def _gen_system(rng, trial, lattice=None, minT=1):
     """seeded 2-D trajectory + neighbour lists + weights: orthogonal / triclinic cells, all periodicity masks, T = 1..3,
     coordination 1..7, weights of both signs"""
     import numpy as np
-    T = int(rng.integers(1, 4))
+    T = int(rng.integers(minT, minT + 3))
     N = int(rng.integers(2, 9))
     L = rng.uniform(3.0, 7.0, size=2)
     H = np.diag(L)
@@ -372,7 +698,7 @@ def _replay_boo(which, case, clause, model, seed):
     weighted_cases = [case.startswith("weighted")] if which == "lthorder" else [False, True]
     with tempfile.TemporaryDirectory(prefix="pyvc-c10-") as tmp:
         for trial in range(14):
-            sysd = _gen_system(rng, trial)
+            sysd = _gen_system(rng, trial, minT=1 if which in ("lthorder", "spatial_corr") else 2)
             l = int(rng.integers(1, 13))
             for weighted in weighted_cases:
                 out_phi = (tmp + f"/phi{trial}.npy") if (which == "lthorder" and case.endswith("/file")) else ""
@@ -440,10 +766,90 @@ def _inputs(sysd, l, weighted):
 
 
 def _check_methods(which, case, boo, S, sysd, psi, rng):
+    """time_average / time_corr / spatial_corr of the real object against straightforward re-implementations of the documented
+    functions of psi (psi itself was checked against the definition by the caller)"""
+    import importlib
+    import os
+    import tempfile
+
+    import numpy as np
+    T, N = sysd["T"], sysd["N"]
+    psi = np.asarray(boo.ParticlePhi)
+    withfile = case.endswith("file") and not case.endswith("nofile")
+    tmp = tempfile.mkdtemp(prefix="pyvc-c10m-")
+    if which == "time_average":
+        dt = float(rng.choice([0.002, 0.01]))
+        w = int(rng.integers(1, T + 1))
+        tp = (w + 0.5) * 100 * dt            # frames are 100 steps apart: int(tp / (100 dt)) = w
+        cplx = case.startswith("complex")
+        of = os.path.join(tmp, "avg") if withfile else ""
+        try:
+            got, ids = boo.time_average(tp, dt, cplx, of)
+        except Exception as e:
+            return f"time_average(time_period={tp}, dt={dt}, average_complex={cplx}) raises {type(e).__name__}: {e}"
+        want = np.zeros((T - w, N), dtype=complex)
+        for k in range(T - w):
+            if cplx:
+                want[k] = psi[k:k + w].mean(axis=0)
+            else:
+                want[k] = np.abs(psi[k:k + w]).mean(axis=0) * np.exp(1j * np.angle(psi[k:k + w]).mean(axis=0))
+        bad = _cmp(got, want, f"time_average(average_complex={cplx}, window {w} frames)")
+        if bad:
+            return bad
+        CGm = importlib.import_module("PyMatterSim.utils.coarse_graining")
+        ids_ref = CGm.time_average(S, psi, tp, dt)[1]
+        if not np.array_equal(np.asarray(ids), np.asarray(ids_ref)):
+            return f"middle-frame ids {np.asarray(ids).tolist()} differ from those of utils.time_average {np.asarray(ids_ref).tolist()}"
+        if withfile:
+            bad = _cmp(np.load(of + ".npy"), got, "saved average vs returned")
+            if bad is None and T - w > 0:
+                sid = np.loadtxt(of + ".snapshot_id.dat", skiprows=1, ndmin=1)
+                if not np.array_equal(sid.astype(int), np.asarray(ids).astype(int)):
+                    bad = "saved snapshot ids differ from the returned ones"
+            return bad
+        return None
+    if which == "time_corr":
+        dt = float(rng.choice([0.002, 0.01]))
+        of = os.path.join(tmp, "tc.csv") if withfile else ""
+        try:
+            res = boo.time_corr(dt, of)
+        except Exception as e:
+            return f"time_corr raises {type(e).__name__}: {e}"
+        c = np.zeros(T)
+        for lag in range(T):
+            c[lag] = np.mean([(psi[t + lag] * np.conj(psi[t])).sum().real for t in range(T - lag)])
+        want = c / c[0]
+        bad = _cmp(res["time_corr"].values, want, "time_corr (origin-averaged <sum psi(t) psi*(0)> / <sum |psi|^2>)")
+        if bad is None:
+            bad = _cmp(res["t"].values, np.arange(T) * 100 * dt, "time axis")
+        if bad is None and withfile:
+            import pandas as pd
+            bad = _cmp(pd.read_csv(of)["time_corr"].values, np.round(res["time_corr"].values, 8), "csv vs returned")
+        return bad
+    if which == "spatial_corr":
+        G = importlib.import_module("PyMatterSim.static.gr")
+        rdelta = float(rng.choice([0.25, 0.5]))
+        of = os.path.join(tmp, "gl.csv") if withfile else ""
+        try:
+            res = boo.spatial_corr(rdelta, of)
+        except Exception as e:
+            return f"spatial_corr raises {type(e).__name__}: {e}"
+        acc = None
+        for n in range(T):
+            g = G.conditional_gr(S.snapshots[n], psi[n].copy(), None, np.array(sysd["ppp"]), rdelta)
+            acc = g.values.astype(float) if acc is None else acc + g.values.astype(float)
+        want = acc / T
+        if list(res.columns) != GCOLS:
+            return f"columns {list(res.columns)}"
+        bad = _cmp(res.values.astype(float), want, "spatial_corr = frame average of conditional_gr(frame n, psi[n])")
+        if bad is None and withfile:
+            import pandas as pd
+            bad = _cmp(pd.read_csv(of).values, np.round(res.values.astype(float), 8), "csv vs returned")
+        return bad
     return None
 
 
-UNITS = [LthOrder()]
+UNITS = [LthOrder(), TimeAverage(), TimeCorr(), SpatialCorr()]
 
 NOT_DECIDED = []
 TRUSTED = []
